@@ -62,7 +62,7 @@ def run_order(kind: str, is_async: bool, mode: str, a0: int, b0: int, s0: int, i
     built = get_built(prog, mode)
     rt = RT(tv=tv, body=body, error_mode=mode)
     built.rt = rt
-    catch = (Tag,) if mode == "factory" else (AssertionError,)
+    catch = (Tag,) if mode in ("factory", "falsy_factory") else (AssertionError,)
     try:
         fresh(invoke, built, 7)
         raised = None
@@ -86,7 +86,7 @@ def run_order(kind: str, is_async: bool, mode: str, a0: int, b0: int, s0: int, i
                 ok = False
     # the error factory of a contract runs only if that contract's error is raised (in particular not for a violated
     # group of preconditions that is followed by a satisfied one)
-    if mode == "factory":
+    if mode in ("factory", "falsy_factory"):
         want_err = [] if exp_out[0] == "ret" else [(exp_out[1], exp_out[2], exp_out[3])]
         if list(rt.errlog) != want_err:
             ok = False
@@ -272,7 +272,9 @@ def harnesses(tier: str) -> List[H]:
     post_bits = [B("q0"), B("q1"), B("q2")]
     inv_bits = [B("v0"), B("v1"), B("w0"), B("w1")]
     cfgs = [("func", False, "factory"), ("method", False, "factory"), ("init", False, "factory"),
-            ("method", True, "factory"), ("func", False, "default")]
+            ("method", True, "factory"), ("func", False, "default"),
+            # error factories returning exceptions that are falsy (a class defining __len__ -> 0)
+            ("method", False, "falsy_factory")]
     if tier == "thorough":
         cfgs += [("func", True, "factory"), ("static", False, "factory"), ("class", True, "factory"),
                  ("prop_get", False, "factory"), ("prop_set", False, "factory"), ("new", False, "factory"),
